@@ -35,7 +35,7 @@ def scenarios(tier: str, seed: int) -> list[dict]:
     rich = tier == "thorough"
     rng = random.Random(seed * 7919 + (1 if rich else 0))
     scs = qos_gen.single_caller_grid(rich) + qos_gen.queue_order_scenarios(rich) + qos_gen.repeat_scenarios(rich)
-    n_rand = 40000 if rich else 2500
+    n_rand = 16000 if rich else 2500
     for k in range(n_rand):
         scs.append(qos_gen.random_scenario(rng, 1 + (k % 4), rich=True))
     return scs
@@ -84,7 +84,7 @@ def spec_to_code(tier: str, seed: int) -> tuple[list[dict], int]:
     """Behaviours of the model (TLC -simulate) replayed through the real PortProtocol by the Director."""
     import shutil
     import tempfile
-    n = 300 if tier == "quick" else 4000
+    n = 300 if tier == "quick" else 2400
     d = tempfile.mkdtemp(prefix="vqsim_")
     try:
         behs = []
